@@ -80,12 +80,32 @@ def large_conflict_terms(fb):
     return terms, site
 
 
+def fast_children(rep, fb, rule):
+    fi2 = fb.fn('uscxml::FastMicroStep::init')
+    sets = []
+    for n in fi2.walk():
+        if n['k'] in ('CXXOperatorCallExpr', 'BinaryOperator') and n.get('op') == '=' and any(m[0] == 'BIT_SET_AT' for m in (n.get('mac') or [])):
+            names = [x['ref'].get('name') for x in sub(n) if x['k'] == 'MemberExpr']
+            if 'children' in names:
+                sets.append(n)
+    if not sets:
+        raise AnalysisBroken('FastMicroStep::init: the statement that sets the children bits was not found')
+    for n in sets:
+        in_walk = [a for a in fi2.ancestors(n) if a['k'] in ('WhileStmt', 'ForStmt', 'DoStmt') and any(
+            x.get('callee', {}).get('q', '').endswith('getParentNode') for x in sub(a['c'][-1]))]
+        # the outer loop over all states also contains getParentNode calls; the ancestor walk is the innermost loop whose *condition* tests the parent cursor
+        walk = [a for a in in_walk if a['k'] == 'WhileStmt' and any(x['k'] == 'DeclRefExpr' and x['ref'].get('name') == 'parent' for x in sub(a['c'][0]))]
+        rep.check(not walk, rule, 'FastMicroStep::init|children are direct children', locstr(n), 'the children bit is set %s' % (
+            'for the direct parent only' if not walk else 'inside the walk up the ancestors (loop at %s): `children` then holds all descendants and the deep-completion test `completion & children` never fires' % locstr(walk[0])))
+
+
 def run(rep, tier):
     rep.rule('R03.1', 'sibling agreement: for every skeleton fact computed for one engine the other engine has the same fact -- phase-protocol verdict and event alphabet, iteration directions per site, exact _flags relation (set of (flags, return, events, flags\') tuples), monitor-protocol verdict, containment status of every callback call, run-state members covered by reset(), serialization key set')
     rep.rule('R03.3', 'isInFinal treats pseudo-states as neutral: a history child of a parallel does not keep the parallel from being final')
     rep.rule('R03.4', 'both engines use all terms of the conflict definition: the fast engine\'s precomputed matrix (same source, source ancestry both ways, exit-set overlap both ways) and the large engine\'s lazily filled cache (source ancestry both ways, exit-set overlap both ways)')
     rep.rule('R03.8', 'the large engine\'s lazily filled conflict cache is used like the fast engine\'s matrix: per step the compatible set only narrows (intersection) and the conflicting set only grows (same rule as C01 R01.14)')
     rep.rule('R03.7', 'both engines compare the closed exit intervals with non-strict comparisons (overlap and membership tests)')
+    rep.rule('R03.9', 'closures are complete in both engines: set-valued relations are used whole, ancestor passes do not re-seat their iterator at an insertion, deep completion adds the ancestors of every member (same rules as C02 R02.11 / R02.12); a closure that one engine cuts short is an engine difference')
     rep.rule('R03.6', 'the fast engine\'s children relation holds direct children only (as in the large engine and in the transpiler tables): the bit is not set while walking up the ancestors')
     rep.rule('R03.5', 'both engines compute the transition domain with the same (specified) quantifier shape: source only if internal, compound and all targets inside; else nearest compound ancestor containing all targets')
     rep.rule('R03.2', 'registration: the factory registers one instance of each engine class, their names are distinct ("large", "fast"), the default engine of InterpreterImpl::init is a registered class')
@@ -268,22 +288,18 @@ def run(rep, tier):
         if not strict:
             rep.ok('R03.7', sk[e].eng, '%d endpoint comparisons, all non-strict' % len(cmps))
     # ---- R03.6 children relation of the fast engine
-    fi2 = fb.fn('uscxml::FastMicroStep::init')
-    sets = []
-    for n in fi2.walk():
-        if n['k'] in ('CXXOperatorCallExpr', 'BinaryOperator') and n.get('op') == '=' and any(m[0] == 'BIT_SET_AT' for m in (n.get('mac') or [])):
-            names = [x['ref'].get('name') for x in sub(n) if x['k'] == 'MemberExpr']
-            if 'children' in names:
-                sets.append(n)
-    if not sets:
-        raise AnalysisBroken('FastMicroStep::init: the statement that sets the children bits was not found')
-    for n in sets:
-        in_walk = [a for a in fi2.ancestors(n) if a['k'] in ('WhileStmt', 'ForStmt', 'DoStmt') and any(
-            x.get('callee', {}).get('q', '').endswith('getParentNode') for x in sub(a['c'][-1]))]
-        # the outer loop over all states also contains getParentNode calls; the ancestor walk is the innermost loop whose *condition* tests the parent cursor
-        walk = [a for a in in_walk if a['k'] == 'WhileStmt' and any(x['k'] == 'DeclRefExpr' and x['ref'].get('name') == 'parent' for x in sub(a['c'][0]))]
-        rep.check(not walk, 'R03.6', 'FastMicroStep::init|children are direct children', locstr(n), 'the children bit is set %s' % (
-            'for the direct parent only' if not walk else 'inside the walk up the ancestors (loop at %s): `children` then holds all descendants and the deep-completion test `completion & children` never fires' % locstr(walk[0])))
+    fast_children(rep, fb, 'R03.6')
+    # ---- R03.9 closures are complete in both engines (shared with C02 R02.11 / R02.12)
+    from .C02 import closure_loops, first_only
+    from . import _skel as _sk
+    first_only(rep, fb, 'R03.9')
+    closure_loops(rep, fb, 'R03.9')
+    for q in ('uscxml::LargeMicroStep::step', 'uscxml::FastMicroStep::step'):
+        brk, n_ = _sk.completion_closure_breaks(fb.fn(q))
+        for lp, b_ in brk:
+            rep.fail('R03.9', '%s|deep completion stops at the first member' % q.split('::')[1], locstr(b_), 'the loop at %s adds the ancestors of the completion members but leaves at the first one; the other engine adds them for every member' % locstr(lp))
+        if not brk:
+            rep.ok('R03.9', q.split('::')[1] + '|deep completion', 'every completion member contributes its ancestors (%d loop(s))' % n_)
 
     lt, lsite = large_conflict_terms(fb)
     want_l = {'source-ancestry#1', 'source-ancestry#2', 'exit-overlap#1'}
